@@ -1,3 +1,4 @@
+import Heathcliff.Proofs.C04T
 import Heathcliff.Proofs.C01O
 import Heathcliff.Proofs.C04M
 
@@ -86,5 +87,60 @@ theorem moddown_round {P : Nat} (hP : 0 < P) (X Y E : Int) (h : X = P * Y + E) :
 
 /-- non-vacuity of the key-switch phase identity in ℤ: one digit, key row (k0,k1) = (7, 3) with s = 2, e = 1, P = 4, g = 1, s' = 3 -/
 example : (7 : Int) + 3 * 2 = 1 + 4 * 1 * 3 := by decide
+
+
+/-! ### key switching of the model: accumulation = NTT of the digit-key convolution, mod-down = rounding division by the special prime (BFV/CKKS and BGV branch), refusals
+    (statements, hypothesis bundles and non-vacuity instances: Heathcliff/Proofs/C04T.lean, section "Property theorems") -/
+
+/-- T1 `ksAccumulate_spec`.  For a well-formed key level (`KeyLevel.WF`), `dsz + 1 ≤ ksz`, an RNS index `i ≤ dsz`
+    (index `dsz` = special prime; `c04t_keyIndex` is the key-level modulus used: `if i = dsz then ksz - 1 else i`), canonical
+    coefficient-form target digits `targetCoef` (in NTT representation: `target` canonical and `targetCoef = intt target` per
+    component, exactly what `switchKey` passes), canonical key residues at the key modulus, and the 128-bit accumulator bound
+    `dsz·4q² < 2^128` (see `c04t_no_overflow_60`: implied by dsz ≤ 64 for q < 2^60, `c04t_no_overflow_61`: dsz ≤ 16 for q < 2^61):
+    `ksAccumulate` succeeds; component k of the result has size n, canonical values, and is the NTT (w.r.t. the key modulus) of
+    Σ_j D_j ⋆ K_{j,k} mod q — i.e. its `intt` is coefficientwise `(Σ_j negMulNat n q D_j (intt K_{j,k}) c) % q`, where D_j is the
+    digit polynomial `targetCoef[j]` taken as integers in [0, q_j) (not reduced mod q) and ⋆ the negacyclic product. -/
+theorem ksAccumulate_spec : type_of% @HC.ksAccumulate_spec := @HC.ksAccumulate_spec
+
+/-- T1 with the overflow guard discharged from `dsz ≤ 64` and key moduli below 2^60 -/
+theorem ksAccumulate_spec_dsz64 : type_of% @HC.ksAccumulate_spec_dsz64 := @HC.ksAccumulate_spec_dsz64
+
+/-- refusals of `switch_key_inplace_internal` -/
+theorem switchKey_refuses_sizes : type_of% @HC.switchKey_refuses_sizes := @HC.switchKey_refuses_sizes
+
+theorem switchKey_refuses_bfv_ntt : type_of% @HC.switchKey_refuses_bfv_ntt := @HC.switchKey_refuses_bfv_ntt
+
+theorem switchKey_refuses_coeff_form : type_of% @HC.switchKey_refuses_coeff_form := @HC.switchKey_refuses_coeff_form
+
+/-- T2 `moddown_spec` (rounding branch: BFV in coefficient form, CKKS in NTT form).  For inputs satisfying `c04t_KSInput`
+    (well-formed key level, `dsz + 1 ≤ ksz`, canonical target / key residues / ciphertext residues, 128-bit accumulator bound,
+    `invPModQ[j]·P ≡ 1 (mod q_j)`), `switchKey` succeeds; only the first `kcc` polynomials change; and for k < kcc, j < dsz the
+    new component is `ct[k][j] + δ (mod q_j)` where, coefficient by coefficient (through `intt` when the data is in NTT form),
+    δ ≡ round(X / P) (mod q_j) (`Spec.roundDiv`) for EVERY integer X with X ≡ X_j[c] (mod q_j) and X ≡ X_P[c] (mod P), X_* being
+    the accumulated polynomials Σ_j D_j ⋆ K_{j,k} of T1 in coefficient form (`c04t_accCoef`).  `moddown_round` then splits
+    round(X/P) for X = P·Y + E. -/
+theorem moddown_spec : type_of% @HC.moddown_spec := @HC.moddown_spec
+
+/-- T2, BGV branch.  Same frame as `moddown_spec`; the added polynomial δ satisfies, coefficient by coefficient (through `intt`),
+    δ ≡ (X − E)/P (mod q_j) for every integer X with X ≡ X_j[c] (mod q_j), X ≡ X_P[c] (mod P), where
+    E = X_P[c] + P·((−X_P[c])·P^{-1} mod t) (`c04t_bgvE`) does not depend on j, is ≡ X (mod P), a multiple of t, and 0 ≤ E < P·t:
+    the result is X·P^{-1} corrected so that the error is ≡ 0 (mod t). -/
+theorem moddown_spec_bgv : type_of% @HC.moddown_spec_bgv := @HC.moddown_spec_bgv
+
+/-- ring-level phase identity of key switching + mod-down (algebraic core of T3; see `c04t_phase_ring`) -/
+theorem keyswitch_moddown_phase_ring : type_of% @HC.keyswitch_moddown_phase_ring := @HC.keyswitch_moddown_phase_ring
+
+/-- `relinearize_internal` on a size-3 ciphertext is one `switchKey` of c2 (key for s²) followed by dropping c2 -/
+theorem relinearize_size3 : type_of% @HC.relinearize_size3 := @HC.relinearize_size3
+
+theorem relinearize_size2 : type_of% @HC.relinearize_size2 := @HC.relinearize_size2
+
+theorem relinearize_refuses_small : type_of% @HC.relinearize_refuses_small := @HC.relinearize_refuses_small
+
+theorem relinearize_refuses_missing_key : type_of% @HC.relinearize_refuses_missing_key := @HC.relinearize_refuses_missing_key
+
+theorem applyGalois_refuses_size : type_of% @HC.applyGalois_refuses_size := @HC.applyGalois_refuses_size
+
+theorem applyGalois_refuses_element : type_of% @HC.applyGalois_refuses_element := @HC.applyGalois_refuses_element
 
 end HC.C04
